@@ -2,13 +2,17 @@ import Ptk.Proto
 import Ptk.Gen.C10Display
 import Ptk.Model.C10Gen
 import Ptk.Model.C10Tok
+import Ptk.Model.C10Bytes
+import Ptk.Model.C10Grammar
+import Ptk.Model.C10Out
+import Ptk.Gen.C10Codecs
 open Ptk Ptk.Py Ptk.Proto Ptk.C10
 
 /-- style environment sent by the harness (parameters of the model that belong to C19's domain):
     style string ↦ (attrs id, style_string_has_style), attrs id ↦ escape code -/
 structure Env where
   styles : List (Text × Nat × Bool) := []
-  sgrs : List (Nat × Text) := []
+  sgrs : List (Nat × List Nat) := []
 
 def Env.attrsOf (e : Env) (s : Text) : Nat :=
   match e.styles.find? (·.1 = s) with
@@ -18,10 +22,10 @@ def Env.hasStyle (e : Env) (s : Text) : Bool :=
   match e.styles.find? (·.1 = s) with
   | some (_, _, h) => h
   | none => false
-def Env.sgr (e : Env) (a : Nat) : Text :=
+def Env.sgr (e : Env) (a : Nat) : List Nat :=
   match e.sgrs.find? (·.1 = a) with
   | some (_, t) => t
-  | none => "<?sgr>".toList
+  | none => "<?sgr>".toList.map Char.toNat
 
 /-! token stream parser -/
 abbrev P := StateT (List String) Option
@@ -33,22 +37,32 @@ def pNat : P Nat := do let t ← tok; (decNat t : Option Nat)
 def pInt : P Int := do let t ← tok; (decInt t : Option Int)
 def pBool : P Bool := do let t ← tok; (decBool t : Option Bool)
 def pStr : P Text := do let t ← tok; (decStr t : Option Text)
+
+/-- content strings: `s:` + comma separated decimal CODE POINTS, kept as numbers (lone surrogates
+    are not Lean `Char`s, `Proto.decStr` would turn them into U+0000) -/
+def decCps (tok : String) : Option (List Nat) :=
+  if !tok.startsWith "s:" then none else
+  let body := (tok.drop 2).toString
+  if body.isEmpty then some [] else
+  (body.splitOn ",").mapM fun p => p.toNat?
+def encCps (t : List Nat) : String := "s:" ++ ",".intercalate (t.map toString)
+def pCps : P (List Nat) := do let t ← tok; (decCps t : Option (List Nat))
 def pMany {α} (p : P α) : Nat → P (List α)
   | 0 => pure []
   | n + 1 => do let a ← p; let r ← pMany p n; pure (a :: r)
 def pList {α} (p : P α) : P (List α) := do let n ← pNat; pMany p n
 
-def pFrag : P (Text × Text) := do let s ← pStr; let t ← pStr; pure (s, t)
+def pFrag : P (Text × List Nat) := do let s ← pStr; let t ← pCps; pure (s, t)
 
 def M := genTable
 def WC := genWc
 
-def encCell (c : Cell) : String := s!"{encStr c.char} {encStr c.style} {c.width}"
+def encCell (c : Cell) : String := s!"{encCps c.char} {encStr c.style} {c.width}"
 
 def encSegs (l : List Seg) : String :=
   let tag : Origin → String
     | .gen => "r" | .genw => "w" | .content => "w" | .zwe => "r"
-  encList (fun (o, t) => tag o ++ " " ++ encStr t) l
+  encList (fun (o, t) => tag o ++ " " ++ encCps t) l
 
 structure DState where
   env : Env := {}
@@ -61,6 +75,8 @@ structure DState where
   last : Option Text := none
   vt : VtSt := none
   prevWidth : Nat := 0
+  /-- `wire` op: the codec of the binary stream the output object writes to (`none` = text stream) -/
+  codec : Option Nat := none
 
 def D0 : Cell := genD0
 def E : Emit := genEmit
@@ -78,38 +94,152 @@ def dumpCells (b : Buf) (d : Cell) : String :=
 def dumpZwe (z : Zwe) : String :=
   let keys := (z.map (·.1)).eraseDups
   let keys := (keys.toArray.qsort posLt).toList
-  encList (fun p => s!"{p.1} {p.2} {encStr ((zweFind? z p).getD [])}") keys
+  encList (fun p => s!"{p.1} {p.2} {encCps ((zweFind? z p).getD [])}") keys
 
 def encPieces (l : List Seg) : String :=
   let tag : Origin → String
     | .gen => "r" | .genw => "w" | .content => "w" | .zwe => "r"
-  encList (fun (o, t) => tag o ++ " " ++ encStr t) (l.filter fun (_, t) => !t.isEmpty)
+  encList (fun (o, t) => tag o ++ " " ++ encCps t) (l.filter fun (_, t) => !t.isEmpty)
+
+/-- codec registry of the driver: 0 = UTF-8, i+1 = the i-th regenerated code page -/
+def codecOf (i : Nat) : Codec :=
+  match i with
+  | 0 => utf8
+  | i + 1 =>
+    match Gen.C10.charmaps[i]? with
+    | some (_, e, d) => charmap e d
+    | none => utf8
+
+def pOptNat : P (Option Nat) := do
+  let t ← tok
+  if t == "N" then pure none else (t.toNat?.map some : Option (Option Nat))
+
+def encItems (l : List Item) : String :=
+  encList (fun it => match it with | .cp c => s!"c{c}" | .bad b => s!"x{b}") l
+
+def pOutOp : P OutOp := do
+  let t ← tok
+  if t == "w" then do let d ← pCps; pure (.write d)
+  else if t == "r" then do let d ← pCps; pure (.writeRaw d)
+  else if t == "f" then pure .flush
+  else failure
+
+/-- bytes appended to a reply when a `wire` codec is set -/
+def wireSuffix (st : DState) (t : List Nat) : String :=
+  match st.codec with
+  | none => ""
+  | some i => " " ++ encCps (encodeReplace (codecOf i) t)
+
+def E2 : Emit2 := genEmit2
+
+partial def pCall : P Call := do
+  let t ← tok
+  match t with
+  | "es" => pure .eraseScreen | "ea" => pure .enterAlt | "qa" => pure .quitAlt
+  | "em" => pure .enableMouse | "dm" => pure .disableMouse | "eb" => pure .enableBP | "db" => pure .disableBP
+  | "rk" => pure .resetCursorKeyMode | "cpr" => pure .askCpr | "bell" => pure .bell
+  | "goto" => do let r ← pNat; let c ← pNat; pure (.goto r c)
+  | "up" => do let n ← pNat; pure (.up n)
+  | "down" => do let n ← pNat; pure (.down n)
+  | "fwd" => do let n ← pNat; pure (.fwd n)
+  | "back" => do let n ← pNat; pure (.back n)
+  | "hide" => pure .hideCursor | "show" => pure .showCursor
+  | "shape" => do let i ← pNat; pure (.setShape i)
+  | "rshape" => pure .resetShape
+  | "eol" => pure .eraseEol | "ed" => pure .eraseDown | "ra" => pure .resetAttrs
+  | "dw" => pure .disableWrap | "ew" => pure .enableWrap
+  | "title" => do let s ← pCps; pure (.setTitle s)
+  | "ctitle" => pure .clearTitle
+  | _ => failure
+
+def pDumbEv : P DumbEv := do
+  let t ← tok
+  if t == "s" then do let frs ← pList pFrag; pure (.start frs)
+  else if t == "c" then do let s ← pCps; pure (.changed s)
+  else if t == "f" then pure .finish
+  else failure
 
 def handle (st : DState) : String → P (DState × String)
+  | "wire" => do
+    let c ← pOptNat
+    pure ({ st with codec := c }, "ok")
+  | "enc" => do
+    let i ← pNat; let s ← pCps
+    pure (st, encCps (encodeReplace (codecOf i) s))
+  | "decode" => do
+    let i ← pNat; let s ← pCps
+    pure (st, encItems ((codecOf i).dec s))
+  | "flush" => do
+    let he ← pBool; let hb ← pBool; let e ← pOptNat; let s ← pCps
+    let r := flushStdout { hasEncoding := he, hasBuffer := hb, encoding := e.map codecOf } s
+    pure (st, match r with | .bytes bs => "b " ++ encCps bs | .text t => "t " ++ encCps t)
+  | "out" => do
+    let vt ← pBool; let ops ← pList pOutOp
+    let r := outRun vt [] ops
+    pure (st, encList encCps r.1 ++ " " ++ encList encCps r.2)
   | "env" => do
     let sty ← pList (do let s ← pStr; let a ← pNat; let h ← pBool; pure (s, a, h))
-    let sg ← pList (do let a ← pNat; let t ← pStr; pure (a, t))
+    let sg ← pList (do let a ← pNat; let t ← pCps; pure (a, t))
     -- the stream theorems assume every SGR code is a complete control sequence: re-checked
     -- here, with the tokenizer the theorems use, on the codes of the REAL escape-code cache
     let allComplete := sg.all fun (_, t) => complete t
-    pure ({ st with env := { styles := sty, sgrs := sg } }, if allComplete then "ok" else "sgr-incomplete")
+    -- the byte-level theorems assume every SGR code is pure ASCII (passes every codec unchanged)
+    let allAscii := sg.all fun (_, t) => t.all fun c => c < 0x80
+    -- the grammar theorems assume every SGR code is a sentence of the output grammar
+    let allParse := sg.all fun (_, t) => (parse t).isSome
+    pure ({ st with env := { styles := sty, sgrs := sg } },
+      if !allComplete then "sgr-incomplete" else if !allAscii then "sgr-not-ascii"
+      else if !allParse then "sgr-not-in-grammar" else "ok")
   | "cell" => do
-    let s ← pStr; let sty ← pStr
+    let s ← pCps; let sty ← pStr
     pure (st, encCell (mkCell M WC s sty))
   | "dwidth" => do
-    let s ← pStr
+    let s ← pCps
     pure (st, toString (displayWidth M WC Gen.C10.isPrintable s))
   | "write" => do
-    let s ← pStr
-    pure (st, encStr (safeWrite s))
+    let s ← pCps
+    pure (st, encCps (safeWrite s))
   | "print" => do
     let frs ← pList pFrag
     let e := st.env
     let segs := printFrags e.attrsOf e.sgr Gen.C10.resetAttrs Gen.C10.enableAutowrap frs
-    pure (st, encStr (segsText segs) ++ " " ++ encSegs segs)
+    pure (st, encCps (segsText segs) ++ " " ++ encSegs segs ++ wireSuffix st (segsText segs))
   | "tok" => do
-    let s ← pStr
-    pure (st, encList encStr (ctrlTokens s))
+    let s ← pCps
+    pure (st, encList encCps (ctrlTokens s))
+  | "calls" => do
+    let bell ← pBool; let silent ← pBool; let cs ← pList pCall
+    let r := vtCalls E E2 { enableBell := bell, silentTitle := silent } cs
+    pure (st, encCps r.2)
+  | "renderer" => do
+    let erase ← pBool; let inAlt ← pBool; let mouse ← pBool; let bp ← pBool
+    let x ← pNat; let y ← pNat; let leaveAlt ← pBool; let pre ← pList pCall
+    let s0 := (vtCalls E E2 {} pre).1
+    let f : RFlags := { inAlt := inAlt, mouse := mouse, bp := bp }
+    let r := if erase then rendererErase f x y leaveAlt else rendererReset f leaveAlt
+    let out := vtCalls E E2 s0 r.1
+    pure (st, s!"{encCps out.2} {encBool r.2.inAlt} {encBool r.2.mouse} {encBool r.2.bp}")
+  | "dumb" => do
+    let evs ← pList pDumbEv
+    pure (st, encList (fun e => encCps (dumbStep Gen.C10.dumbPromptMaps M e)) evs)
+  | "printplain" => do
+    let c ← pOptNat; let frs ← pList pFrag
+    let t := printPlain frs
+    pure (st, match c with
+      | none => "t " ++ encCps t
+      | some i => "b " ++ encCps (encodeReplace (codecOf i) t))
+  | "proxy" => do
+    let raw ← pBool; let s ← pCps
+    let segs := proxyWrite E raw s
+    pure (st, encCps (segsText segs) ++ " " ++ encSegs segs)
+  | "istok" => do
+    let s ← pCps
+    pure (st, encBool (isToken s))
+  | "parse" => do
+    let s ← pCps
+    pure (st, match parse s with
+      | none => "N"
+      | some ps => encList (fun p => match p with | .ch c => s!"c{c}" | .tok t => "t " ++ encCps t) ps)
   | "newscreen" => pure ({ st with buf := [], zwe := [], height := 0 }, "ok")
   | "resetr" => pure ({ st with prev := none, x := 0, y := 0, last := none, vt := none, prevWidth := 0 }, "ok")
   | "copy" => do
@@ -137,7 +267,7 @@ def handle (st : DState) : String → P (DState × String)
     let (vt, segs) := vtSegs E e.sgr st.vt r.evs.reverse
     let lastS := match r.last with | none => "N" | some l => encStr l
     pure ({ st with prev := some scr, x := r.x, y := r.y, last := r.last, vt := vt, prevWidth := width },
-      s!"{r.x} {r.y} {lastS} {encStr (segsText segs)} {encPieces segs}")
+      s!"{r.x} {r.y} {lastS} {encCps (segsText segs)} {encPieces segs}" ++ wireSuffix st (segsText segs))
   | _ => failure
 
 def stepLine (e : DState) (toks : List String) : DState × String :=
